@@ -75,11 +75,25 @@ func TriviaOnly(b []byte, atEnd bool) (ok bool, hasNewline bool) {
 			i++
 		case c == '/' && i+1 < len(b) && b[i+1] == '/':
 			i += 2
+			loneCR := -1
 			for i < len(b) && b[i] != '\n' {
+				if b[i] == '\r' && loneCR < 0 && !(i+1 < len(b) && b[i+1] == '\n') {
+					loneCR = i
+				}
 				i++
 			}
 			if i >= len(b) {
-				// comment not closed by a line break inside the gap
+				// comment not closed by a line feed inside the gap: fine at the end of
+				// the input, and fine when a lone CR closes it (whether a lone CR is a
+				// line terminator is left open) and only white space follows
+				if !atEnd && loneCR >= 0 {
+					for _, x := range b[loneCR:] {
+						if !IsSpace(x) {
+							return false, hasNewline
+						}
+					}
+					return true, hasNewline
+				}
 				return atEnd, hasNewline
 			}
 		default:
